@@ -20,6 +20,10 @@
      (15 heap L (key ...))             merge_events_by_keys
      (16 heap L key pulse sub_key)     chunk_events_by_key (pulse in us)
      (17 heap L)                       sum_durations          -> (0 sum) | (1 errcode)
+     (18 heap L key compiled fatab)    filter_keyvals_regex (Model/FilterRegexHeap.v; run by C12's check);
+                                       compiled = 0/1: re.compile(regex) returned; fatab = ((label 0 b) |
+                                       (label 1 errcode) ...): bool(r.findall(v)) per value label, b = 0/1;
+                                       a label that is not listed is not a str: TypeError
 
    C19 (Model/ClassifyHeap.v).  Scalar labels in data dicts: 2*s = the string s, 2*l+1 = any
    other immutable value l; a list of strings is the cell (2 ((s 1 0) ...) ()).  Engine
@@ -30,7 +34,7 @@
      (23 heap L subtab key)                      simplify_string
    20..22 mutate in place: (0 (heap' L')) | (1 errcode heap') [the heap reached when it raised] | (2) *)
 From AwVerif Require Import Base.Prelude Base.Sexp Model.MemHeap Model.Timeslot Model.TransformHeap
-  Model.DictHeap Model.GroupHeap Model.ClassifyBase Model.Classify Model.ClassifyHeap.
+  Model.DictHeap Model.GroupHeap Model.ClassifyBase Model.Classify Model.ClassifyHeap Model.FilterRegexHeap.
 From Coq Require Import Arith.
 Require Extraction.
 Require Import ExtrOcamlBasic.
@@ -216,6 +220,21 @@ Definition sTagClass (s : sexp) : option (Z * rulespec) :=
   | _ => None
   end.
 
+(* ---- filter_keyvals_regex: the engine table ---- *)
+Definition sFaRow (s : sexp) : option (Z * res bool) :=
+  match s with
+  | L [A q; A 0; A b] => Some (q, Ok (negb (b =? 0)))
+  | L [A q; A 1; A c] => Some (q, Err (err_of_code c))
+  | _ => None
+  end.
+Fixpoint fa_lookup (t : list (Z * res bool)) (q : Z) : option (res bool) :=
+  match t with
+  | [] => None
+  | (q', r) :: rest => if q' =? q then Some r else fa_lookup rest q
+  end.
+Definition fa_of (t : list (Z * res bool)) (q : Z) : res bool :=
+  match fa_lookup t q with Some r => r | None => Err TypeError end.
+
 (* in-place transforms: the heap reached travels with the outcome *)
 Definition outh_s (r : heap * res loc) : sexp :=
   match snd r with
@@ -285,6 +304,11 @@ Definition driver_entry (s : sexp) : sexp :=
       match sHeap hp with
       | Some h => res_s (fun z => A z) (sum_durations_h h (nat_of l))
       | None => bad_case
+      end
+  | L [A 18; hp; A l; A key; A c; ft] =>
+      match sHeap hp, sList sFaRow ft with
+      | Some h, Some ft => out_s (filter_keyvals_regex_h (negb (c =? 0)) (fa_of ft) h (nat_of l) key)
+      | _, _ => bad_case
       end
   | L [A 20; hp; A l; rt; cls] =>
       match sHeap hp, sList sReRow rt, sList sCatLocClass cls with
